@@ -544,7 +544,8 @@ def mc_run(w):
                 mgr.back_off_connect_error.max_delay = w["max_delay"]
         trace, transports, task, mgr = CT.drive(MC, loop, P, w["K"], StopScenario, sched, now_units, configure)
         try:
-            quiescent = loop.run_until_quiescent(w["horizon"] / scale) == "quiescent"
+            with CT.after_nth_handle(w.get("S"), CT.drive.last_close):
+                quiescent = loop.run_until_quiescent(None) == "quiescent"      # ends when nothing is scheduled any more (or the scenario is cut)
         except StopScenario:
             quiescent = False
         cut = any(e[0] == "attempt" and e[1] >= w["K"] for e in trace)
@@ -573,7 +574,7 @@ def judge_C17(w):
         return {"signature": "exception:" + exc_signature(e), "detail": repr(e)}
     res = CT.analyse_c17(trace, not cut, lambda a, b: a == b, sum(1 for t in transports if t.closed), len(transports))
     if res:
-        return {"signature": res[0][0], "detail": f"{res[0][1]}; scenario K={w['K']} T={w.get('T')} D={w.get('D')} params={w['params']}; trace={[tuple(e) for e in trace]}"[:1500]}
+        return {"signature": res[0][0], "detail": f"{res[0][1]}; scenario K={w['K']} T={w.get('T')} D={w.get('D')} S={w.get('S')} params={w['params']}; trace={[tuple(e) for e in trace]}"[:1500]}
     return None
 
 
@@ -809,6 +810,24 @@ def autodecode(w):
     else:
         res = d.decode_message(make_message(via, data))
     return res, d.previous_success_decoder
+
+
+def judge_C15_lemma(w):
+    try:
+        r, name, names = c12_lemma_run(w)
+    except Exception as e:
+        return {"signature": "exception-escapes-autodecoder-loop", "detail": f"{type(e).__name__}: {e}; accept={w['acc']} raises-ValueError={w['verr']} prev={w['prev']} via={w['via']}"}
+    if r is not None and not isinstance(r, dict):
+        return {"signature": "not-dict-or-none", "detail": repr(r)}
+    return None
+
+
+def observe_C15_lemma(w):
+    try:
+        r, name, _ = c12_lemma_run(w)
+    except Exception as e:
+        return "exc:" + type(e).__name__
+    return [r, name]
 
 
 def judge_C15(w):
